@@ -189,6 +189,11 @@ create_trace_stream(void)
 			die("cannot move the descriptor of %s:", path);
 		close(rthread.streamfd);
 		rthread.streamfd = fd;
+
+		/* Another thread may have printed to the low descriptor while
+		 * it was ours: start the file again */
+		if (ftruncate(fd, 0) != 0 || lseek(fd, 0, SEEK_SET) != 0)
+			die("cannot rewind %s:", path);
 	}
 }
 
